@@ -447,10 +447,10 @@ def representation_obligations(rep, cfgs=('K0',)):
                 rep.ob('mut:%s::%s:explore' % (ty, name), 'TS-EXPLORE', fn, prog.bodies[fn]['span'], 'method explored', False, 'INCONCLUSIVE(%s)' % ex)
                 continue
             mu.check_invariants_method(prog, e, segs, fn, ty, inv, rep, 'mut:%s::%s' % (ty, name))
+        raw_ctor_callers(prog, rep, allinv)
         if cfg == 'K0':
             for fn, ty in mu.constructors(prog):
                 n_ctor += mu.check_constructor(prog, fn, ty, allinv, rep, EXEMPT_CTORS)
-            raw_ctor_callers(prog, rep, allinv)
     return n_ctor
 
 
@@ -488,10 +488,10 @@ def mutator_obligations(rep, cfgs=('K0', 'K1'), with_getters=True):
                 mu.check_invariants_method(prog, e, segs, fn, ty, inv, rep, keybase)
             if cfg == 'K0' and spec_effect(prog, e, segs, fn, ty, name, rep, roles, has_loops):
                 n_effect += 1
+        raw_ctor_callers(prog, rep, allinv)
         if cfg == 'K0':
             for fn, ty in mu.constructors(prog):
                 n_ctor += mu.check_constructor(prog, fn, ty, allinv, rep, EXEMPT_CTORS)
-            raw_ctor_callers(prog, rep, allinv)
             if with_getters:
                 ng = getters(prog, rep, roles)
                 rep.floor('validating getters', ng, 4)
@@ -504,6 +504,8 @@ def mutator_obligations(rep, cfgs=('K0', 'K1'), with_getters=True):
 def run(tier, replay=None):
     rep = common.new_report('C10', tier, 'other')
     mutator_obligations(rep)
+    # assigning parsed subtags to the public fields: the subtag validators normalise exactly as the parser does (shared with C15)
+    validators.run_all(common.program('K0'), rep, roles_wanted={'Language', 'Script', 'Region', 'Variant'})
     rep.explanation = ('Structural necessary conditions of the model equivalence, decided on every path of every mutator, constructor and validating getter: '
                        'typestate (sorted / duplicate-free / single empty representation) of the invariant fields at every exit, no write to self before an Err return, '
                        'every inserted key/value/attribute/tag is the argument validated against the exact production and normalised as the parser does (shape domain), '
